@@ -758,6 +758,9 @@ def flatten_path(path, flatten_slashes=False):
     # If the filename is empty string
     if flatten_slashes and path.endswith('/') or not len(new_parts):
         new_parts.append('')
+    elif parts[-1] in ('.', '..') and new_parts[-1] != '':
+        # A trailing dot segment names a directory: "/a/b/.." is "/a/"
+        new_parts.append('')
 
     # Put back leading slash
     new_parts.appendleft('')
